@@ -108,7 +108,26 @@ pub fn run(case: &Value) -> Value {
         }
         match guarded(|| build(&op, &regs)) {
             Ok(v) => {
-                events.push(json!({"ev": "Op", "op": op, "res": project(&v)}));
+                // the checked variants (used by the reducer) of the same operation: the same value, or None
+                let checked = guarded(|| {
+                    let i = op["i"].as_u64().unwrap_or(1) as usize - 1;
+                    let j = op["j"].as_u64().unwrap_or(1) as usize - 1;
+                    match str_of(&op["op"]) {
+                        "add" => Some(regs[i].clone().checked_add(regs[j].clone())),
+                        "sub" => Some(regs[j].clone().checked_neg().and_then(|n| regs[i].clone().checked_add(n))),
+                        "neg" => Some(regs[i].clone().checked_neg()),
+                        _ => None,
+                    }
+                });
+                let checked = match checked {
+                    Ok(None) => json!({"k": "na", "entries": []}),
+                    Ok(Some(None)) => json!({"k": "none", "entries": []}),
+                    Ok(Some(Some(c))) => json!({"k": "some", "entries": project(&c)["entries"]}),
+                    Err(_) => json!({"k": "panic", "entries": []}),
+                };
+                let mut res = project(&v);
+                res["checked"] = checked;
+                events.push(json!({"ev": "Op", "op": op, "res": res}));
                 regs.push(v);
             }
             Err(p) => {
